@@ -25,6 +25,10 @@ pub struct PeekCase {
     /// set the ring up with SINGLE_ISSUER | DEFER_TASKRUN and add one poll per batch on a socket made
     /// readable only after submission
     pub defer: bool,
+    /// every enter hands the kernel only half of what is flushed (at least one entry); the rest stays queued
+    /// while the next batch asks for slots, and is submitted at the end
+    #[serde(default)]
+    pub partial: bool,
 }
 
 fn defer_supported() -> bool {
@@ -49,6 +53,7 @@ pub fn run_case(c: &PeekCase) -> CaseResult {
     let mut socks: Vec<[i32; 2]> = Vec::new();
     let mut ud = 0x9e00u64;
     let mut fail: Option<Failure> = None;
+    let mut pending = 0u32; // flushed, not yet handed to the kernel
     'sub: for b in 0..c.batches.clamp(1, 5) {
         let mut n = 0u32;
         for k in 0..sq {
@@ -69,6 +74,12 @@ pub fn run_case(c: &PeekCase) -> CaseResult {
             n += 1;
         }
         ring.flush_submission_queue();
+        pending += n;
+        if pending == 0 {
+            continue;
+        }
+        let n = if c.partial { (pending / 2).max(1) } else { pending };
+        pending -= n;
         match catch(|| io_uring_enter(fd, n, 0, IoUringEnterFlags::empty())) {
             Ok(Ok(r)) if r == n as usize => {}
             Ok(Ok(r)) => {
@@ -92,6 +103,24 @@ pub fn run_case(c: &PeekCase) -> CaseResult {
                 break 'sub;
             }
         }
+    }
+    // what was left queued goes to the kernel now (in pieces if the completion ring is crowded)
+    let mut rounds = 0;
+    while fail.is_none() && pending > 0 && rounds < 64 {
+        rounds += 1;
+        match catch(|| io_uring_enter(fd, pending, 0, IoUringEnterFlags::IORING_ENTER_GETEVENTS)) {
+            Ok(Ok(r)) => pending -= (r as u32).min(pending),
+            Ok(Err(e)) if e.code == Some(rusl::error::Errno::EBUSY) => break,
+            Ok(Err(e)) => fail = Some(Failure::new("peek|io_uring_enter|error", format!("io_uring_enter(to_submit {pending}) failed: {e}"))),
+            Err((loc, msg)) => fail = Some(Failure::new(format!("peek|panic|{loc}"), msg)),
+        }
+    }
+    if pending > 0 && fail.is_none() {
+        for s in &socks {
+            sys::close_quiet(s[0]);
+            sys::close_quiet(s[1]);
+        }
+        return Ok(rep);
     }
     // now the sockets become readable: the polls complete asynchronously
     for s in &socks {
@@ -154,6 +183,7 @@ pub fn run_case(c: &PeekCase) -> CaseResult {
     rep.nontrivial = expected.len() > 2 * sq as usize || defer;
     rep.class_if(expected.len() > 2 * sq as usize, "completion-ring-overflowed");
     rep.class_if(defer, "defer-taskrun-ring");
+    rep.class_if(c.partial, "slots-requested-while-flushed-entries-are-still-queued");
     rep.class_if(!c.defer || defer, "judged");
     Ok(rep)
 }
@@ -170,9 +200,9 @@ pub fn run(ctx: &Ctx) {
     for entries in [1u32, 2, 3, 4, 8] {
         for batches in [1u8, 2, 3, 4] {
             for op in [0u8, 1] {
-                for defer in [false, true] {
+                for (defer, partial) in [(false, false), (true, false), (false, true)] {
                     if k % ctx.nworkers == ctx.worker {
-                        let c = PeekCase { entries, batches, op, defer };
+                        let c = PeekCase { entries, batches, op, defer, partial };
                         if !ctx.run_one("peek", &c, || run_case(&c)) {
                             return;
                         }
